@@ -134,7 +134,7 @@ func Main() {
 	r.Cases("corpus", len(presets()), core.Opts{Procs: 2, Workers: 5, StallSec: 600}, corpusCase)
 	r.Cases("replicas", r.N(20, 1500), core.Opts{Procs: 4, Workers: 4, StallSec: 600}, replicaCase)
 	r.Cases("valreports", r.N(16, 600), core.Opts{Procs: 4, Workers: 4, StallSec: 600}, reportCase)
-	r.Cases("long", r.N(2, 24), core.Opts{Procs: 2, Workers: 1, StallSec: 900}, longCase)
+	r.Cases("long", r.N(2, 24), core.Opts{Procs: r.N(2, 8), Workers: 1, StallSec: 900}, longCase)
 
 	// fresh child processes (different map hash seeds, cold caches): two groups run the same case list
 	if !r.IsChild() && os.Getenv("VERIF_ONLY_CASE") == "" {
@@ -210,6 +210,8 @@ func Main() {
 	r.Floor("reads_of_cleared_slots_after_the_clearing_reached_the_disk_layer", 6)
 	r.Floor("reads_of_cleared_slots_whose_value_and_clearing_both_reached_the_disk_layer", 2)
 	r.Floor("reads_of_slots_whose_value_is_in_the_disk_layer", 4)
+	r.Floor("contracts_recreated_after_their_destruction_reached_the_disk_layer", 2)
+	r.Floor("same_block_recreations_over_storage_in_the_disk_layer", 1)
 	r.Floor("comparisons_after_a_disk_merge:snapshot_vs_trie_only", 40)
 	r.Floor("comparisons_after_a_disk_merge:long_running_vs_restarted_since", 15)
 	r.Finish()
